@@ -49,6 +49,12 @@ func (t PredefinedTopics) GetTopicID(clientID, topic string) (uint16, bool) {
 	if tAll, ok := t["*"]; ok {
 		for topicID, topicName := range tAll {
 			if topicName == topic {
+				// A client-specific entry with the same topicID takes
+				// precedence in GetTopicName, i.e. for this client
+				// the topicID denotes another topic.
+				if _, shadowed := t[clientID][topicID]; shadowed {
+					continue
+				}
 				return topicID, true
 			}
 		}
